@@ -74,6 +74,23 @@ INVARIANTS
     return _dedupe(res.printed, "steps")[:num]
 
 
+def staged_validate(run, module, cfg, traces, behs, **kw):
+    """Validate in chunks of growing size and stop at the first chunk with a violation: the driver
+    finds failing traces one TLC run at a time, so when (nearly) every trace fails - a broken tree -
+    validating everything would take hours and add nothing to the verdict."""
+    start = 0
+    for size in (6, 40, len(traces)):
+        chunk = traces[start:start + size]
+        if not chunk:
+            break
+        run.validate(module, cfg, chunk, behs[start:start + size], **kw)
+        start += size
+        if run.violations:
+            v.log("violation found: skipping the remaining %d trace(s) of this group" % max(0, len(traces) - start))
+            return False
+    return True
+
+
 def design(run, thorough):
     # RTR client + table: mechanism => property layer, without the repairs (every stale record
     # carries the signature of a known finding) and with them (strict)
@@ -134,7 +151,8 @@ def main(run: Run):
         if not behs:
             continue
         traces = run.execute("c16", "internal/pkg/table", "^TestVerifC16$", behs, tag="c16-" + g)
-        run.validate("RpkiTblTrace", "RpkiTblTrace.cfg", traces, behs, group=g, batch=1500)
+        if not staged_validate(run, "RpkiTblTrace", "RpkiTblTrace.cfg", traces, behs, group=g, batch=1500):
+            return
 
     # ---- end to end: real BgpServer + RTR client against loopback caches ----
     e2e = []
@@ -154,8 +172,9 @@ def main(run: Run):
                 if row.get("ev") in ("ResetRpki", "DisableRpki") and row.get("ok") and \
                         any(x["c"] == row["c"] for x in row["obs"]["table"]):
                     left += 1
-        run.validate("RpkiTrace", "RpkiTrace.cfg", traces, behs, known_cfg="RpkiKF.cfg", group=g,
-                     conf_cfg="RpkiConf.cfg", batch=(10 if g == "e2e-free" else 400))
+        if not staged_validate(run, "RpkiTrace", "RpkiTrace.cfg", traces, behs, known_cfg="RpkiKF.cfg", group=g,
+                               conf_cfg="RpkiConf.cfg", batch=(10 if g == "e2e-free" else 400)):
+            break
     # informational, not a verdict: the property text does not say that a reset must drop the records
     run.extra["resetrpki_calls_that_left_records_of_the_cache"] = left
 
